@@ -226,12 +226,8 @@ def single_defs(func: ast.AST) -> Dict[str, ast.AST]:
                     bind(t.id, None)
     mutated: set = set()
     for n in walk_local(func):
-        if isinstance(n, (ast.Attribute, ast.Subscript)) and isinstance(n.ctx, (ast.Store, ast.Del)):
-            b = n.value
-            while isinstance(b, (ast.Attribute, ast.Subscript)):
-                b = b.value
-            if isinstance(b, ast.Name):
-                mutated.add(b.id)  # an object under construction / an accumulator: the name stands for identity
+        if isinstance(n, ast.Attribute) and isinstance(n.ctx, (ast.Store, ast.Del)) and isinstance(n.value, ast.Name):
+            mutated.add(n.value.id)  # `x.a = v`: an object under construction, the name stands for its identity
     return {k: v for k, v in defs.items() if count.get(k) == 1 and k not in params and k not in mutated and not _is_fresh_container(v)}
 
 
@@ -272,7 +268,7 @@ def xtext(func: ast.AST, e: ast.AST) -> str:
 
 
 # ---------------------------------------------------------------------------------------------- condition atoms
-def find_tests(g, func: ast.AST, pattern, binds: Optional[Binds] = None) -> List[Tuple[int, str]]:
+def find_tests(g, func: ast.AST, pattern, binds: Optional[Binds] = None, expander=None) -> List[Tuple[int, str]]:
     """Test nodes of CFG g whose atom matches `pattern` (positive or negative as written), as
     (node index, out-edge label on which the pattern holds)."""
     p = pat(pattern) if isinstance(pattern, str) else pattern
@@ -285,7 +281,7 @@ def find_tests(g, func: ast.AST, pattern, binds: Optional[Binds] = None) -> List
             continue
         b = match(patom, n.exprs[0], binds)
         if b is None:
-            ex = expand(func, n.exprs[0])
+            ex = expander(n.idx, n.exprs[0]) if expander is not None else expand(func, n.exprs[0])
             a2, n2 = polarity(ex)
             b = match(patom, a2, binds)
             if b is None:
